@@ -178,4 +178,18 @@ def oracle(pystog, case, res):
             return "dataset %d: a stored point lies below the global Qmin" % i
         if cfg["Qmax"] is not None and (new_r[0] > cfg["Qmax"]).any():
             return "dataset %d: a stored point lies above the global Qmax" % i
+    # the same banks as the instance's file list, read in one go by read_all_data: the same two storage arrays
+    plain_ = all(not (d.get("by_call") or d.get("forward_cfg") or d.get("rejected_before") or d.get("set_before") or d.get("reuse_info_of") is not None)
+                 and all(v == v and abs(v) != float("inf") for v in d["y"]) for d in case["datasets"])
+    if plain_ and case["datasets"] and "win_ctor" not in cfg:
+        try:
+            alt = SL.read_all_route(pystog, cfg, case["datasets"])
+        except Exception as ex:
+            return "read_all_data on the same banks given as files raised %s: %s" % (type(ex).__name__, str(ex)[:160])
+        fin = snaps[-1]
+        for arr in ("recip", "sq"):
+            for j in range(3):
+                if not np.array_equal(np.array(alt[arr][j], float), np.array(fin[arr][j], float), equal_nan=True):
+                    return "the same banks read from files by read_all_data store a different %s array (row %d) than add_dataset one by one" % (
+                        {"recip": "reciprocal_individuals", "sq": "sq_individuals"}[arr], j)
     return None
